@@ -8,12 +8,14 @@ import (
 	"sort"
 	"strings"
 
+	"github.com/named-data/ndnd/fw/core"
 	"github.com/named-data/ndnd/fw/dispatch"
 	"github.com/named-data/ndnd/fw/face"
 	"github.com/named-data/ndnd/fw/mgmt"
 	"github.com/named-data/ndnd/fw/table"
 	enc "github.com/named-data/ndnd/std/encoding"
 	ndnlog "github.com/named-data/ndnd/std/log"
+	ndnmgmt "github.com/named-data/ndnd/std/ndn/mgmt_2022"
 )
 
 func nm(s string) enc.Name {
@@ -220,10 +222,162 @@ func FaceProbe() Op {
 
 // FaceDownOwn tears down the face this thread added in slot.
 func FaceDownOwn(slot int) Op {
+	downSlot[fmt.Sprintf("FaceDownOwn(#%d)", slot)] = slot
 	return Op{"FaceDown", fmt.Sprintf("FaceDownOwn(#%d)", slot), func(func()) string {
 		face.FaceTable.Remove(addedSlot[slot])
 		return ""
 	}, nil}
+}
+
+// ---- face teardown and face-guarded management commands on REGISTERED faces (family D) ----
+//
+// The operations below act on faces that really are in the face table and in the dispatch table
+// (added by the scenario's Init through FaceAdd, ids 10, 11, ...) and that own routes. Teardown is
+// the real face.Table.Remove, as the link service's goroutine calls it when its transport stops
+// (FaceDownOwn), or the real faces/destroy command on the management thread (MgmtDestroy); the
+// registrations are the real rib/register, rib/unregister, fib/add-nexthop and fib/remove-nexthop
+// handlers of fw/mgmt, handed a command Interest the way Thread.Run does, with an explicit FaceId
+// (the handler then guards the update with FaceTable.Get(id) != nil and answers 410 otherwise) or
+// without one (the route goes to the face the command arrived on; no guard).
+
+// OpMeta describes a management command for the oracle: which face (slot) it is guarded by.
+type OpMeta struct {
+	Guard string // "register": refused with 410 if the face is not in the face table; "destroy": does nothing if it is not
+	Slot  int
+}
+
+var opMeta = map[string]OpMeta{}
+
+// Meta returns the guard description of an operation (zero value: not a guarded command).
+func Meta(op Op) OpMeta { return opMeta[op.Name] }
+
+// TeardownSlot reports whether op tears down the face of a slot (Remove or faces/destroy).
+func TeardownSlot(op Op) (slot int, ok bool) {
+	if m, is := opMeta[op.Name]; is && m.Guard == "destroy" {
+		return m.Slot, true
+	}
+	if s, is := downSlot[op.Name]; is {
+		return s, true
+	}
+	return 0, false
+}
+
+var downSlot = map[string]int{}
+
+func u64(v uint64) *uint64 { return &v }
+
+func mgmtOp(kind, name string, meta OpMeta, module, verb string, args func() (*ndnmgmt.ControlArgs, uint64)) Op {
+	opMeta[name] = meta
+	return Op{kind, name, func(func()) string {
+		a, inFace := args()
+		status, _ := mgmt.VerifCommand(module, verb, a, inFace)
+		return fmt.Sprint(status)
+	}, nil}
+}
+
+// MgmtRegister is rib/register for prefix p with an explicit FaceId (the face of slot), arriving
+// on another (local) face. The result is the status code of the ControlResponse.
+func MgmtRegister(p string, slot int, o, c, fl uint64) Op {
+	return mgmtOp("RibRegister", fmt.Sprintf("MgmtRegister(%s,#%d,o%d,c%d,fl%d)", p, slot, o, c, fl), OpMeta{"register", slot}, "rib", "register",
+		func() (*ndnmgmt.ControlArgs, uint64) {
+			return &ndnmgmt.ControlArgs{Name: nm(p), FaceId: u64(addedSlot[slot]), Origin: u64(o), Cost: u64(c), Flags: u64(fl)}, 1
+		})
+}
+
+// MgmtRegisterSelf is rib/register without FaceId, arriving on the face of slot itself (an
+// application announcing its own prefix): the handler does not consult the face table.
+func MgmtRegisterSelf(p string, slot int, o, c, fl uint64) Op {
+	return mgmtOp("RibRegisterSelf", fmt.Sprintf("MgmtRegisterSelf(%s,#%d,o%d,c%d,fl%d)", p, slot, o, c, fl), OpMeta{}, "rib", "register",
+		func() (*ndnmgmt.ControlArgs, uint64) {
+			return &ndnmgmt.ControlArgs{Name: nm(p), Origin: u64(o), Cost: u64(c), Flags: u64(fl)}, addedSlot[slot]
+		})
+}
+
+// MgmtUnregister is rib/unregister with an explicit FaceId.
+func MgmtUnregister(p string, slot int, o uint64) Op {
+	return mgmtOp("RibUnregister", fmt.Sprintf("MgmtUnregister(%s,#%d,o%d)", p, slot, o), OpMeta{}, "rib", "unregister",
+		func() (*ndnmgmt.ControlArgs, uint64) {
+			return &ndnmgmt.ControlArgs{Name: nm(p), FaceId: u64(addedSlot[slot]), Origin: u64(o)}, 1
+		})
+}
+
+// MgmtFibAdd is fib/add-nexthop with an explicit FaceId (guarded like rib/register).
+func MgmtFibAdd(p string, slot int, c uint64) Op {
+	return mgmtOp("FibAddNexthop", fmt.Sprintf("MgmtFibAdd(%s,#%d,c%d)", p, slot, c), OpMeta{"register", slot}, "fib", "add-nexthop",
+		func() (*ndnmgmt.ControlArgs, uint64) {
+			return &ndnmgmt.ControlArgs{Name: nm(p), FaceId: u64(addedSlot[slot]), Cost: u64(c)}, 1
+		})
+}
+
+// MgmtFibRemove is fib/remove-nexthop with an explicit FaceId.
+func MgmtFibRemove(p string, slot int) Op {
+	return mgmtOp("FibRemoveNexthop", fmt.Sprintf("MgmtFibRemove(%s,#%d)", p, slot), OpMeta{}, "fib", "remove-nexthop",
+		func() (*ndnmgmt.ControlArgs, uint64) {
+			return &ndnmgmt.ControlArgs{Name: nm(p), FaceId: u64(addedSlot[slot])}, 1
+		})
+}
+
+// MgmtDestroy is faces/destroy for the face of slot: the management thread's teardown (it calls
+// face.Table.Remove if it still finds the face in the face table).
+func MgmtDestroy(slot int) Op {
+	return mgmtOp("FaceDestroy", fmt.Sprintf("MgmtDestroy(#%d)", slot), OpMeta{"destroy", slot}, "faces", "destroy",
+		func() (*ndnmgmt.ControlArgs, uint64) {
+			return &ndnmgmt.ControlArgs{FaceId: u64(addedSlot[slot])}, 1
+		})
+}
+
+// RibAddSlot / LookupFaces: a route for the face of a slot (Init), and which slots' faces a name
+// currently resolves to are visible through the ordinary Lookup.
+func RibAddSlot(p string, slot int, o, c, fl uint64) Op {
+	return Op{"RibAdd", fmt.Sprintf("RibAdd(%s,#%d,o%d,c%d,fl%d)", p, slot, o, c, fl), func(func()) string {
+		table.Rib.AddEncRoute(nm(p), &table.Route{FaceID: addedSlot[slot], Origin: o, Cost: c, Flags: fl})
+		return ""
+	}, nil}
+}
+
+// FaceAlive is what the management thread asks about a face id it was given: is the face (still)
+// in the face table? DispatchAlive is what a forwarding thread asks: is it in the dispatch table?
+// (Two structures, and neither Add nor Remove is atomic over both - the property does not ask for
+// that - so one probe reads one structure, and a thread program uses one kind of probe only.)
+// After a teardown of the face has returned the answer must be no.
+func FaceAlive(slot int) Op {
+	return Op{"FaceProbe", fmt.Sprintf("FaceAlive(#%d)", slot), func(yield func()) string {
+		return fmt.Sprintf("table:%v", face.FaceTable.Get(addedSlot[slot]) != nil)
+	}, nil}
+}
+func DispatchAlive(slot int) Op {
+	return Op{"FaceProbe", fmt.Sprintf("DispatchAlive(#%d)", slot), func(yield func()) string {
+		return fmt.Sprintf("dispatch:%v", dispatch.GetFace(addedSlot[slot]) != nil)
+	}, nil}
+}
+
+// SlotFace is the face id the face of a slot was given.
+func SlotFace(slot int) uint64 { return addedSlot[slot] }
+
+// DeadFaceRefs lists the faces added in slots that are no longer in the face table but still own a
+// RIB route or a FIB next hop (used to name the symptom of a final-state mismatch, not to judge).
+func DeadFaceRefs() []uint64 {
+	var out []uint64
+	for _, id := range addedSlot {
+		if id == 0 || face.FaceTable.Get(id) != nil {
+			continue
+		}
+		ref := false
+		for _, e := range table.Rib.GetAllEntries() {
+			for _, r := range e.GetRoutes() {
+				ref = ref || r.FaceID == id
+			}
+		}
+		for _, e := range table.FibStrategyTable.GetAllFIBEntries() {
+			for _, h := range e.GetNextHops() {
+				ref = ref || (h != nil && h.Nexthop == id)
+			}
+		}
+		if ref {
+			out = append(out, id)
+		}
+	}
+	return out
 }
 
 func FibInsert(p string, f, c uint64) Op {
@@ -338,6 +492,15 @@ func Setup(fib string, s Scenario) {
 			}
 		}
 	}
+	// a management thread object (not running) whose module handlers the Mgmt* operations call;
+	// created here, before any thread starts (the readvertiser list is replaced right below)
+	if core.GetConfig() == nil {
+		c := core.DefaultConfig()
+		c.Tables.Rib.ReadvertiseNlsr = false
+		core.LoadConfig(c, "")
+	}
+	mgmt.VerifReset()
+	mgmt.VerifCommand("none", "none", nil, 0)
 	// the real NLSR readvertiser is registered with the RIB, as with readvertise_nlsr=true
 	var rv *mgmt.NlsrReadvertiser
 	rv, rvTransport = mgmt.VerifNewReadvertiser()
@@ -497,10 +660,62 @@ func All(thorough bool) []Scenario {
 	for _, t := range triplesC {
 		out = append(out, Scenario{Name: "C:" + t[0] + "||" + t[1] + "||" + t[2], Init: initC, Threads: [][]Op{progsC[t[0]], progsC[t[1]], progsC[t[2]]}})
 	}
+	// Fourth family: teardown of faces that really are registered (face table + dispatch table) and
+	// own routes, through the real face.Table.Remove (the link service's goroutine) and the real
+	// faces/destroy command, against the face-guarded registration commands of the management thread
+	// (rib/register, fib/add-nexthop with an explicit FaceId: "410 unless FaceTable.Get(id) != nil"),
+	// unregistration, self-registration on the arrival face, lookups and face probes. Two teardowns
+	// of the SAME face are included (faces/destroy + the link service stopping, or two goroutines
+	// calling Remove), followed in the same thread by what a lookup / a face probe sees once that
+	// teardown has returned. At most one thread of a scenario is the management thread (the daemon
+	// has one), and the management thread does not issue forwarding lookups.
+	initD := []Op{FaceAdd(0), FaceAdd(1), RibAddSlot("/a", 0, 0, 1, CI), RibAddSlot("/a/b", 1, 0, 2, CI), RibAddSlot("/a", 1, 0, 5, 0),
+		RibAddSlot("/r", 0, table.RouteOriginClient, 1, 0), RibAddSlot("/r", 1, table.RouteOriginClient, 1, 0)}
+	progsD := map[string][]Op{
+		"D1": {FaceDownOwn(0)},
+		"D2": {FaceDownOwn(0), DispatchAlive(0), Lookup("/a")},
+		"D3": {FaceDownOwn(1)},
+		"D4": {FaceDownOwn(1), Lookup("/a/b/c")},
+		"G1": {MgmtRegister("/a/b", 0, 0, 3, CI)},
+		"G2": {MgmtRegister("/d", 0, 0, 1, 0)},
+		"G3": {MgmtFibAdd("/a", 0, 9)},
+		"G4": {MgmtUnregister("/a", 0, 0), MgmtRegister("/a", 0, 0, 2, CI)},
+		"G5": {MgmtRegisterSelf("/d", 0, 0, 1, CI)},
+		"G6": {MgmtDestroy(0)},
+		"G7": {MgmtDestroy(1), MgmtRegister("/a", 1, 0, 4, CI)},
+		"G8": {MgmtFibRemove("/a", 0), MgmtFibAdd("/d", 1, 2)},
+		"DL": {Lookup("/a/b"), Lookup("/a")},
+		"DM": {Lookup("/d/x"), FaceAlive(0)},
+	}
+	keysD := []string{}
+	for k := range progsD {
+		// (quick tier: the second face's teardown-then-lookup, the unguarded self-registration and the
+		// next-hop removal are left to the thorough tier)
+		if !thorough && (k == "D4" || k == "G5" || k == "G8") {
+			continue
+		}
+		keysD = append(keysD, k)
+	}
+	sort.Strings(keysD)
+	for i, a := range keysD {
+		for _, b := range keysD[i+1:] {
+			if (a[0] == 'G' && b[0] == 'G') || (a[1] >= 'L' && b[1] >= 'L' && a[0] == 'D' && b[0] == 'D') {
+				continue // one management thread; two reader-only threads are family C's subject
+			}
+			out = append(out, Scenario{Name: "D:" + a + "||" + b, Init: initD, Threads: [][]Op{progsD[a], progsD[b]}})
+		}
+	}
+	triplesD := [][3]string{{"D1", "G6", "DL"}, {"D1", "G2", "DM"}}
+	if thorough {
+		triplesD = append(triplesD, [3]string{"D1", "D2", "G1"}, [3]string{"D3", "G7", "DL"}, [3]string{"D1", "D2", "DL"}, [3]string{"D3", "D4", "G7"}, [3]string{"D1", "G4", "DL"}, [3]string{"D1", "D3", "G1"}, [3]string{"D2", "G5", "DM"}, [3]string{"D1", "G3", "DL"}, [3]string{"D2", "G6", "DM"})
+	}
+	for _, t := range triplesD {
+		out = append(out, Scenario{Name: "D:" + t[0] + "||" + t[1] + "||" + t[2], Init: initD, Threads: [][]Op{progsD[t[0]], progsD[t[1]], progsD[t[2]]}})
+	}
 	return out
 }
 
-// Family is the scenario family a scenario name belongs to ("A", "B", "C").
+// Family is the scenario family a scenario name belongs to ("A", "B", "C", "D").
 func Family(name string) string {
 	if len(name) > 2 && name[1] == ':' {
 		return name[:1]
